@@ -38,6 +38,7 @@ pub fn requirements(tier: Tier) -> Vec<(&'static str, u64)> {
         ("joined-names", 500),
         ("accepted-in-enumerated-space", 7),
         ("structured-padding", 40_000_000),
+        ("in-type-position-of-a-purl", 1_000_000),
         ("dense:same-length-ascii", 1_000_000_000),
         // the 2^len case variants of the names lie inside the dense ASCII spaces
         ("dense:accepted", if tier == Tier::Quick { 8 + 8 + 16 } else { 8 + 8 + 16 + 3 * 32 }),
@@ -71,6 +72,31 @@ pub fn judge_str(s: &str) -> (bool, Option<Fail>) {
         (Out::Ok(Err(_)), Some(e)) => (false, Some(Fail::tagged("case-variant-refused", r8(e), format!("{s:?} is a case variant of {:?} but was refused", r8(e))))),
         (Out::Ok(Err(_)), None) => (false, None),
         (Out::Err(_), _) => unreachable!(),
+    }
+}
+
+/// The same through the type position of a PURL: `pkg:{s}/n` is a typed PURL of type T exactly
+/// when `s` is a case variant of T's name (for `s` free of the characters that end the type
+/// position).
+pub fn judge_in_purl(s: &str) -> Option<Fail> {
+    if s.contains(['/', '?', '#']) {
+        return None;
+    }
+    let text = format!("pkg:{s}/n");
+    let got = guard("Purl::from_str", || Purl::from_str(&text));
+    let expected = ALL_TYPES.iter().copied().find(|t| r8(*t) == ascii_lower(s));
+    match (got, expected) {
+        (Out::Panic(m), _) => Some(Fail::tagged("panicked", m.clone(), format!("Purl::from_str({text:?}) panicked: {m}"))),
+        (Out::Ok(Ok(p)), Some(e)) if *p.package_type() == e => None,
+        (Out::Ok(Ok(p)), Some(e)) => Some(Fail::tagged("wrong-variant-in-purl", r8(e), format!("{text:?} parsed to type {:?}, expected {e:?}", p.package_type()))),
+        (Out::Ok(Ok(p)), None) => Some(Fail::tagged(
+            "foreign-string-accepted-in-purl",
+            r8(*p.package_type()),
+            format!("{text:?} is taken for a {:?} PURL although {s:?} is not a case variant of {:?}", p.package_type(), r8(*p.package_type())),
+        )),
+        // maven needs a namespace: `pkg:maven/n` is refused for that reason alone
+        (Out::Ok(Err(_)), Some(e)) if r8(e) != "maven" => Some(Fail::tagged("case-variant-refused-in-purl", r8(e), format!("{text:?}: {s:?} is a case variant of {:?} but the PURL was refused", r8(e)))),
+        _ => None,
     }
 }
 
@@ -122,6 +148,10 @@ fn one(ctx: &mut Ctx, s: &str, counter: &'static str, in_space: bool) {
     if let Some(f) = f {
         ctx.st.violation("C15.names", f.signature("C15.names", s), f.detail, json!({"kind": "string", "input": s}));
     }
+    if let Some(f) = judge_in_purl(s) {
+        ctx.st.violation("C15.names", f.signature("C15.names", s), f.detail, json!({"kind": "in-purl", "input": s}));
+    }
+    ctx.st.count("in-type-position-of-a-purl");
 }
 
 /// A string the library takes for a package type is judged in full (`one`); the others only
@@ -420,6 +450,9 @@ pub fn run(ctx: &mut Ctx) {
 }
 
 pub fn replay(_monitor: &str, case: &Value) -> Result<Option<Fail>, String> {
+    if str_field(case, "kind")? == "in-purl" {
+        return Ok(judge_in_purl(str_field(case, "input")?));
+    }
     match str_field(case, "kind")? {
         "string" => Ok(judge_str(str_field(case, "input")?).1),
         "variant" => {
